@@ -1,5 +1,6 @@
 import SE.Spec.Listener
 import SE.Driver.Mapper
+import SE.Driver.Relay
 /-
 `frame dgram <hexpayload>`                     → L[<hexline> …] lines=N
 `frame tcp <hexpayload> <chunksize>*`          → L[…] lines=N toolong=0|1   (chunk sizes cut the payload; the rest is one chunk)
@@ -44,6 +45,40 @@ def udpqCmd (args : List String) : String :=
       | ["proc"] => (s.process).getD s
       | _ => s) s0
     s!"packets={s.packets} drops={s.drops} queued={s.queue.length} {linesStr s.handled}"
+  | _ => "bad-op"
+
+end SE.Driver
+
+namespace SE.Driver
+open SE
+
+/-- `tcpconc <hexpayload>…` — every payload is one TCP connection's byte stream; every line starts with `<i>~`.
+    Per connection (by that prefix) the lines handed to the parser, then the totals. Segmentation and interleaving of the
+    connections are the operating system's: the model uses the stream-level specification per connection
+    (`SE.Props.C18`: it equals `tcpLinesOfChunks` for every segmentation). -/
+def tcpconcCmd (args : List String) : String :=
+  match args.mapM decHex with
+  | none => "bad-op"
+  | some ps =>
+    let outs := ps.map tcpLinesOfStream
+    let strip (l : Bytes) : Bytes := (l.dropWhile (· != 126)).drop 1
+    let per := outs.map fun o => linesStr (o.lines.map strip)
+    let total := (outs.map (·.lines.length)).sum
+    let tl := (outs.filter (·.tooLong)).length
+    s!"{" ".intercalate per} lines={total} toolong={tl} other=0"
+
+/-- `framerelay <pktlen> <hexpayload>` — a datagram through a listener with a relay attached: the lines for the parser
+    and the datagrams the relay target has received after the next flush tick -/
+def framerelayCmd : List String → String
+  | [pl, h] =>
+    match decHex h with
+    | none => "bad-op"
+    | some p =>
+      let ls := datagramLines p
+      let z0 : RelaySess := { s := { pktLen := pl.toNat?.getD 0 } }
+      let z := (relayCallsOf ls).foldl (fun z l => (relaySub z ["l", encHex l]).1) z0
+      let z := (relaySub z ["tick"]).1
+      s!"{linesStr ls} lines={ls.length} relayed=D[{" ".intercalate (z.s.sent.map encHex)}]"
   | _ => "bad-op"
 
 end SE.Driver
